@@ -181,12 +181,40 @@ theorem takeDigits10_rest (ds rest : Bytes) (w : Option Nat)
     · left
       simp only [hw, Bool.false_and, Bool.false_eq_true, ↓reduceIte, hd, hc]
 
+@[simp] theorem hd_cons (c : UInt8) (r : Bytes) : hd (c :: r) = c := rfl
+@[simp] theorem hd_nil : hd ([] : Bytes) = 0 := rfl
+
+theorem intPrefix_nonzero (b : Nat) (c : UInt8) (r : Bytes) (w : Option Nat) (h : c ≠ 48) :
+    intPrefix b (c :: r) w = (false, if b = 0 then 10 else b, c :: r, w) := by
+  simp [intPrefix, h]
+
+theorem intPrefix_nil (b : Nat) (w : Option Nat) :
+    intPrefix b [] w = (false, if b = 0 then 10 else b, [], w) := by
+  simp [intPrefix]
+
+/-- base 10: a leading "0" is read as a digit, an "x" behind it is left alone -/
+theorem intPrefix10_zero (r : Bytes) (w : Option Nat) (hw : wOk w = true) :
+    intPrefix 10 (48 :: r) w = (true, 10, r, wDec w) := by
+  simp only [intPrefix, hw, hd_cons, decide_true, Bool.and_self, List.isEmpty_cons, Bool.not_false,
+    ↓reduceIte, List.drop_succ_cons, List.drop_zero, Nat.reduceEqDiff, or_self]
+  split <;> rfl
+
+theorem intPrefix10_fst_snd (s : Bytes) (w : Option Nat) :
+    (intPrefix 10 s w).2.1 = 10 ∧
+    ((intPrefix 10 s w).2.2.1 = s ∨ (intPrefix 10 s w).2.2.1 = s.drop 1) := by
+  unfold intPrefix
+  split
+  · split
+    · simp
+    · simp
+  · simp
+
 /-- unsigned digit string without leading zero, `%d` / `%i` -/
 theorem scanInt_digits_pos (conv : IntConv) (hconv : conv ≠ .x) (d : UInt8) (ds rest : Bytes)
     (hd0 : isdigit d = true) (hnz : d ≠ 48)
     (hds : ∀ c ∈ ds, isdigit c = true) (hr : isdigit (hd rest) = false) :
     scanInt conv none (d :: ds ++ rest) =
-      some (clampI64 (digitsVal 10 (d :: ds) : Int), (d :: ds).length) := by
+      some (clampI64 (digitsVal 10 (d :: ds) : Int), rest) := by
   obtain ⟨h45, h43, hsp, _, _, _, _⟩ := isdigit_facts d hd0
   have htd := takeDigits10 (d :: ds) rest (by intro c hc; simp at hc; rcases hc with rfl | hc; exact hd0; exact hds c hc) hr
   simp only [List.cons_append] at htd
@@ -194,15 +222,15 @@ theorem scanInt_digits_pos (conv : IntConv) (hconv : conv ≠ .x) (d : UInt8) (d
   simp only [List.cons_append, skipSpace, hsp, Bool.false_eq_true, ↓reduceIte]
   cases conv with
   | x => exact absurd rfl hconv
-  | d => simp [h45, h43, hd, hnz, wOk, htd]; omega
-  | i => simp [h45, h43, hd, hnz, wOk, htd]; omega
+  | d => simp [h45, h43, intPrefix_nonzero _ _ _ _ hnz, htd, intValue]
+  | i => simp [h45, h43, intPrefix_nonzero _ _ _ _ hnz, htd, intValue]
 
 /-- "-" followed by a digit string without leading zero, `%d` / `%i` -/
 theorem scanInt_digits_neg (conv : IntConv) (hconv : conv ≠ .x) (d : UInt8) (ds rest : Bytes)
     (hd0 : isdigit d = true) (hnz : d ≠ 48)
     (hds : ∀ c ∈ ds, isdigit c = true) (hr : isdigit (hd rest) = false) :
     scanInt conv none (45 :: d :: ds ++ rest) =
-      some (clampI64 (-(digitsVal 10 (d :: ds) : Int)), (d :: ds).length + 1) := by
+      some (clampI64 (-(digitsVal 10 (d :: ds) : Int)), rest) := by
   have htd := takeDigits10 (d :: ds) rest (by intro c hc; simp at hc; rcases hc with rfl | hc; exact hd0; exact hds c hc) hr
   simp only [List.cons_append] at htd
   unfold scanInt
@@ -210,16 +238,99 @@ theorem scanInt_digits_neg (conv : IntConv) (hconv : conv ≠ .x) (d : UInt8) (d
   simp only [List.cons_append, skipSpace, h45sp, Bool.false_eq_true, ↓reduceIte]
   cases conv with
   | x => exact absurd rfl hconv
-  | d => simp [hd, hnz, wOk, wDec, htd]; omega
-  | i => simp [hd, hnz, wOk, wDec, htd]; omega
+  | d => simp [intPrefix_nonzero _ _ _ _ hnz, htd, intValue, wDec]
+  | i => simp [intPrefix_nonzero _ _ _ _ hnz, htd, intValue, wDec]
 
 /-- the single digit "0", `%d` -/
 theorem scanInt_zero_d (rest : Bytes) (hr : isdigit (hd rest) = false) :
-    scanInt .d none (48 :: rest) = some (0, 1) := by
+    scanInt .d none (48 :: rest) = some (0, rest) := by
   have htd := digitOk10_hd_false rest hr
   unfold scanInt
   have h48sp : isspace 48 = false := by decide
   simp only [skipSpace, h48sp, Bool.false_eq_true, ↓reduceIte]
-  simp [hd, wOk, wDec, htd, digitsVal, clampI64]
+  simp [intPrefix10_zero rest none rfl, htd, digitsVal, intValue, clampI64]
+
+/-- `%d` with any field width on a decimal token: what is left starts with a digit of the token
+    or is what follows the token -/
+theorem scanInt_d_rest (w : Option Nat) (neg : Bool) (d : UInt8) (ds rest : Bytes)
+    (hd0 : isdigit d = true) (hds : ∀ c ∈ ds, isdigit c = true) (hr : isdigit (hd rest) = false)
+    (v : Int) (r : Bytes)
+    (h : scanInt .d w ((if neg then [45] else []) ++ d :: ds ++ rest) = some (v, r)) :
+    isdigit (hd r) = true ∨ r = rest := by
+  obtain ⟨h45, h43, hsp, _, _, _, _⟩ := isdigit_facts d hd0
+  have hall : ∀ c ∈ d :: ds, isdigit c = true := by
+    intro c hc; simp at hc; rcases hc with rfl | hc; exact hd0; exact hds c hc
+  have A := fun w' => takeDigits10_rest (d :: ds) rest w' hall hr
+  have B := fun w' => takeDigits10_rest ds rest w' hds hr
+  simp only [List.cons_append] at A
+  have key : ∀ w', isdigit (hd (takeDigits (intPrefix 10 (d :: (ds ++ rest)) w').2.1
+      (intPrefix 10 (d :: (ds ++ rest)) w').2.2.1 (intPrefix 10 (d :: (ds ++ rest)) w').2.2.2).2) = true ∨
+      (takeDigits (intPrefix 10 (d :: (ds ++ rest)) w').2.1
+      (intPrefix 10 (d :: (ds ++ rest)) w').2.2.1 (intPrefix 10 (d :: (ds ++ rest)) w').2.2.2).2 = rest := by
+    intro w'
+    obtain ⟨hb, hs⟩ := intPrefix10_fst_snd (d :: (ds ++ rest)) w'
+    rw [hb]
+    rcases hs with hs | hs
+    · rw [hs]; exact A _
+    · rw [hs]; simp only [List.drop_succ_cons, List.drop_zero]; exact B _
+  unfold scanInt at h
+  cases neg
+  · simp only [Bool.false_eq_true, ↓reduceIte, List.nil_append, List.cons_append, skipSpace, hsp] at h
+    simp only [h45, h43, decide_false, Bool.or_self, Bool.false_eq_true, ↓reduceIte] at h
+    split at h
+    · cases h
+    · simp only [Option.some.injEq, Prod.mk.injEq] at h
+      rw [← h.2]; exact key _
+  · have h45sp : isspace 45 = false := by decide
+    simp only [↓reduceIte, List.cons_append, List.nil_append, skipSpace, h45sp, Bool.false_eq_true] at h
+    simp only [decide_true, Bool.true_or, ↓reduceIte] at h
+    split at h
+    · cases h
+    · simp only [Option.some.injEq, Prod.mk.injEq] at h
+      rw [← h.2]; exact key _
+
+theorem decDigits_snoc (n : Nat) (h : n ≠ 0) :
+    decDigitsAux n [] = decDigitsAux (n / 10) [] ++ [digitChar (n % 10)] := by
+  rw [decDigitsAux_eq n []]
+  simp only [h, ↓reduceIte]
+  rw [decDigitsAux_acc]
+
+theorem decDigits_zero : decDigitsAux 0 [] = [] := by
+  rw [decDigitsAux_eq]; simp
+
+theorem digitChar_ne_zero (d : Nat) (h1 : 0 < d) (h2 : d < 10) : digitChar d ≠ 48 := by
+  have : ∀ d : Fin 10, 0 < d.val → digitChar d.val ≠ 48 := by decide
+  exact this ⟨d, h2⟩ h1
+
+/-- the digits of a positive number start with a non-zero digit -/
+theorem decDigits_head (n : Nat) (h : 0 < n) :
+    ∃ d ds, decDigitsAux n [] = d :: ds ∧ isdigit d = true ∧ d ≠ 48 := by
+  induction n using Nat.strongRecOn with
+  | _ n ih =>
+    rw [decDigits_snoc n (by omega)]
+    by_cases h10 : n / 10 = 0
+    · rw [h10, decDigits_zero]
+      refine ⟨digitChar (n % 10), [], rfl, isdigit_digitChar _ (by omega), digitChar_ne_zero _ (by omega) (by omega)⟩
+    · obtain ⟨d, ds, he, hd1, hd2⟩ := ih (n / 10) (by omega) (by omega)
+      exact ⟨d, ds ++ [digitChar (n % 10)], by rw [he]; rfl, hd1, hd2⟩
+
+/-- the shape of `%d` output -/
+theorem fmtDec_shape (v : Int) :
+    (v = 0 ∧ fmtDec v = [48]) ∨
+    (∃ d ds, isdigit d = true ∧ d ≠ 48 ∧ (∀ c ∈ ds, isdigit c = true) ∧
+      fmtDec v = (if v < 0 then [45] else []) ++ d :: ds ∧ digitsVal 10 (d :: ds) = v.natAbs) := by
+  by_cases hv : v = 0
+  · left; subst hv; exact ⟨rfl, by decide⟩
+  · right
+    have hn : 0 < v.natAbs := by omega
+    obtain ⟨d, ds, he, hd1, hd2⟩ := decDigits_head v.natAbs hn
+    refine ⟨d, ds, hd1, hd2, ?_, ?_, ?_⟩
+    · intro c hc
+      exact decDigits_all_digit v.natAbs c (by rw [he]; simp [hc])
+    · unfold fmtDec fmtNat
+      have : v.natAbs ≠ 0 := by omega
+      simp only [this, ↓reduceIte, he]
+      split <;> simp
+    · rw [← he]; exact digitsVal_decDigits _
 
 end Rtosc.Libc
